@@ -3,7 +3,8 @@
    writes for the bytes it is given) are arbitrary functions: the theorems hold for every signer. *)
 From NDN Require Import Base.Prelude Model.TlvVar Model.Name Model.Tlv Model.Packet Model.PacketEnc Spec.TlvWf.
 From NDN Require Import Proofs.TlvVarProofs Proofs.TlvSplit Proofs.TlvRoundtrip2 Proofs.PacketRoundtrip Proofs.ShrinkProofs Proofs.ShrinkBridge.
-From NDN Require Generated.Schemas.
+From NDN Require Generated.Schemas Generated.SignerSizes.
+From NDN Require Import Model.SignerSizes Proofs.SignerSizes.
 Local Open Scope N_scope.
 
 (* Data: one element of Type 6 with exact lengths (tlv = shortest-form T and L around the value), and the
@@ -78,3 +79,26 @@ Theorem C01_tie_shrink t p pad :
   Generated.TlvVarGen.shrink_length (tlv t (p ++ pad)) (Z.of_nat (length pad)) = Ok (tlv t p).
 Proof. exact (Proofs.ShrinkBridge.gen_shrink_eq t p pad). Qed.
 Print Assumptions C01_tie_shrink.
+
+(* "for all shipped signers": the size contract of the one signer whose signature length varies.  What
+   Sha256WithEcdsaSigner reserves (arithmetic on the curve size, translated from the source on this run) bounds the
+   length of the DER encoding SEQUENCE { INTEGER r, INTEGER s } for every r, s below 2^bits, on every prime curve a key
+   can be on -- so the signer never writes past the reserved space, and the post-signing rule of the encoder accepts
+   what it wrote (the round-trip theorems above then apply with the shorter signature). *)
+Theorem C01_ecdsa_signature_fits b r s :
+  In b ecdsa_curve_bits -> r < 2 ^ b -> s < 2 ^ b ->
+  der_sig_len r s <= Generated.SignerSizes.ecdsa_reserved b.
+Proof. exact (ecdsa_signature_fits b r s). Qed.
+Print Assumptions C01_ecdsa_signature_fits.
+
+Theorem C01_ecdsa_signature_accepted b r s sv :
+  In b ecdsa_curve_bits -> r < 2 ^ b -> s < 2 ^ b ->
+  N.of_nat (length sv) = der_sig_len r s ->
+  check_sig_len (Generated.SignerSizes.ecdsa_reserved b) sv = Ok tt.
+Proof. exact (ecdsa_signature_accepted b r s sv). Qed.
+Print Assumptions C01_ecdsa_signature_accepted.
+
+(* non-vacuity and tightness: a 139-octet signature exists on P-521, where 140 octets are reserved *)
+Example C01_ecdsa_p521_tight :
+  (exists r s, r < 2 ^ 521 /\ s < 2 ^ 521 /\ der_sig_len r s = 139) /\ Generated.SignerSizes.ecdsa_reserved 521 = 140.
+Proof. split; [exact ecdsa_p521_tight | vm_compute; reflexivity]. Qed.
